@@ -51,6 +51,8 @@ def gen_calls(rng, case):
     objs = objects(case)
     calls = []
     for _ in range(rng.randint(1, 6)):
+        if not objs:
+            break         # only matrix-valued symbols: no guess is generated for them
         o = rng.choice(objs)
         n = o["len"]
         forms = ["const", "vec", "time", "cols"]
